@@ -196,6 +196,10 @@ func LoadContracts(cs *ContractSet, pkgPath, file string) error {
 			word = s[:i]
 			rest = strings.TrimSpace(s[i+1:])
 		}
+		// a clause may carry its own property tags: ensures[C11] label: ...
+		if j := strings.Index(word, "["); j > 0 && strings.HasSuffix(word, "]") {
+			word = word[:j]
+		}
 		switch word {
 		case "func":
 			cur = &Contract{Pkg: pkgPath, Key: rest, File: file, Line: l.line, LoopInv: map[int][]Clause{}, LoopMod: map[int][]ModLoc{}, NoPanic: true}
